@@ -5,6 +5,7 @@ go 1.24.0
 require (
 	github.com/TheManticoreProject/Manticore v0.0.0
 	github.com/google/uuid v1.6.0
+	github.com/miekg/dns v1.0.14
 	golang.org/x/crypto v0.37.0
 )
 
@@ -20,6 +21,9 @@ require (
 	github.com/jcmturner/gokrb5/v8 v8.4.4 // indirect
 	github.com/jcmturner/rpc/v2 v2.0.3 // indirect
 	golang.org/x/net v0.39.0 // indirect
+	golang.org/x/sys v0.32.0 // indirect
 )
 
 replace github.com/TheManticoreProject/Manticore => /repo
+
+replace golang.org/x/sys => golang.org/x/sys v0.29.0
